@@ -158,9 +158,13 @@ class Result:
 
         shots = cast(int, self._shots)
 
-        ret = {}
+        ret: dict = {}
         for branch in self.branches:
-            ret[branch.outcome] = int(branch.frequency * shots)
+            # NOTE: Several branches may carry the same outcome (e.g., the Gaussian
+            # measurements return one branch per sample), hence the counts add up.
+            ret[branch.outcome] = ret.get(branch.outcome, 0) + int(
+                branch.frequency * shots
+            )
 
         return ret
 
